@@ -32,11 +32,16 @@ def mc_runs(ctx, which):
     # (the action property roughly triples TLC's time per state: the quick tier checks it on the two-transport
     # configurations and on two dedicated MaxCid=2 runs, the thorough tier on every run)
     extra = ["INVARIANT CapsInd", "PROPERTY CapsRefinement"] if which == "C06" else []
-    if which == "C06" and ctx.quick():
+    # (measured: with the action property the MaxCid=4 run of the thorough tier did not finish in 40 min, so both tiers
+    # check the refinement on dedicated runs; the thorough tier adds the 3-connection-id run with room for a third inbound)
+    if which == "C06":
         runs = runs + [("caps-ref-small", dict(BASE, Limits="<- LimSmall", MaxCid=2, AddrsOf="<- AddrsDef")),
                        ("caps-ref-mixed", dict(BASE, Limits="<- LimMixed", MaxCid=2))]
+        if not ctx.quick():
+            runs = runs + [("caps-ref-in3", dict(BASE, Limits="<- LimIn3", MaxCid=3)),
+                           ("caps-ref-two-transports", dict(TWO, Limits="<- LimTwo", MaxCid=2))]
     for name, consts in runs:
-        ex = extra if (not ctx.quick() or name.startswith(("caps-ref", "two2"))) else []
+        ex = extra if name.startswith(("caps-ref", "two2")) else []
         r = tlc_mc(ctx, "ConnMgrMC.tla", write_cfg(ctx, "mc_%s.cfg" % name, consts, ["SPECIFICATION Spec"] + MC_INV + ex),
                    workers=10, timeout=3000)
         r["refinement_checked"] = bool(ex)
